@@ -76,7 +76,7 @@ def slowWord : List Bool → List UInt8 → Option (List UInt8 × List UInt8)
   | true :: bs, x :: s => (slowWord bs s).map (fun p => (x :: p.1, p.2))
 
 /-- result of `Unpack`: the bytes appended to `dst`, and whether `err == nil` -/
-def unpackFuel : Nat → List UInt8 → List UInt8 × Bool
+def goUnpackFuel : Nat → List UInt8 → List UInt8 × Bool
   | _, [] => ([], true)
   | 0, _ :: _ => ([], false)
   | fuel + 1, tag :: src =>
@@ -92,7 +92,7 @@ def unpackFuel : Nat → List UInt8 → List UInt8 × Bool
         match src with
         | [] => (w, false)
         | n :: src =>
-          let r := unpackFuel fuel src
+          let r := goUnpackFuel fuel src
           (w ++ zeros (8 * n.toNat) ++ r.1, r.2)
       else if tag = 255 then
         match src with
@@ -102,13 +102,13 @@ def unpackFuel : Nat → List UInt8 → List UInt8 × Bool
           let lit := src.take k ++ zeros (8 * n.toNat - k)
           if k < 8 * n.toNat then (w ++ lit, false)        -- truncated literal run (fix D5a)
           else
-            let r := unpackFuel fuel (src.drop k)
+            let r := goUnpackFuel fuel (src.drop k)
             (w ++ lit ++ r.1, r.2)
       else
-        let r := unpackFuel fuel src
+        let r := goUnpackFuel fuel src
         (w ++ r.1, r.2)
 
-def unpack (s : List UInt8) : List UInt8 × Bool := unpackFuel s.length s
+def goUnpack (s : List UInt8) : List UInt8 × Bool := goUnpackFuel s.length s
 
 /-! ## Streaming reader -/
 
